@@ -187,3 +187,105 @@ func FuzzC01RoundTrip(f *testing.F) {
 		}
 	})
 }
+
+// FuzzC07AnyBytes: any byte string through a gzip or zlib Reader (seeded with valid containers of
+// every header shape): io.EOF only for input the reference container parser accepts, with exactly
+// its payload; a still-valid container must read to io.EOF; every other outcome must be one of the
+// checksum / header / corrupt-input / unexpected-EOF errors, and must stick.
+func FuzzC07AnyBytes(f *testing.F) {
+	seeds := []Member{
+		{Enc: "fast", Level: 1, Data: genText(300, 1)},
+		{Enc: "std", Level: 6, Data: genText(2000, 2), Hdr: &GzHdr{Name: "n\u00e4me", Comment: "c", Extra: []byte{1, 2, 3}, MTime: 12345, OS: 3}},
+		{Enc: "fast", Level: -2, Data: genText(40, 3), Hdr: &GzHdr{Name: "x"}, HCRC: true},
+		{Enc: "fast", Level: 2, Data: gen.Recipe{}},
+	}
+	for i, m := range seeds {
+		if z, err := m.build("gzip"); err == nil {
+			f.Add(z, byte(i))
+			if i > 0 {
+				z0, _ := seeds[0].build("gzip")
+				f.Add(append(append([]byte(nil), z...), z0...), byte(i))
+			}
+		}
+		m.Hdr, m.HCRC = nil, false
+		if z, err := m.build("zlib"); err == nil {
+			f.Add(z, byte(128+i))
+		}
+	}
+	f.Add([]byte{}, byte(0))
+	f.Add([]byte{0x1f, 0x8b}, byte(0))
+	f.Add([]byte{0x78, 0x9c}, byte(128))
+	f.Fuzz(func(t *testing.T, data []byte, ctl byte) {
+		if len(data) > 1<<16 {
+			return
+		}
+		c := C07Case{Pkg: "gzip", Raw: data, Reads: []int{4096}}
+		if data == nil {
+			c.Raw = []byte{}
+		}
+		if ctl >= 128 {
+			c.Pkg = "zlib"
+		}
+		switch ctl % 4 {
+		case 1:
+			c.Reads = []int{1}
+		case 2:
+			c.BufSrc = 16
+		case 3:
+			c.Single = c.Pkg == "gzip"
+		}
+		done := begin("C07", c)
+		defer done()
+		if _, _, err := checkC07(c); err != nil {
+			fuzzFail(t, "C07", c, err)
+		}
+	})
+}
+
+// FuzzC13Reset: a Reader consumes part (or all) of one arbitrary byte string, is Reset onto a second
+// arbitrary byte string and must then behave exactly like a new Reader on it (C13 oracle: fresh object).
+func FuzzC13Reset(f *testing.F) {
+	for i := 0; i < 6; i++ {
+		a, _, _, _ := smallStream(i).Build()
+		b, _, _, _ := smallStream(i + 3).Build()
+		f.Add(a, b, byte(i), byte(10*i))
+		if len(a) > 6 {
+			f.Add(a[:len(a)/2], b, byte(i), byte(3))
+			f.Add(a, b[:len(b)-2], byte(i+8), byte(200))
+		}
+	}
+	// a stream whose first match reaches before its own start, after a stream that left data behind
+	far := synth.Stream{Blocks: []synth.BlockSpec{{Type: 1, N: 30, Seed: 2, Alpha: 4, MatchPct: 60}}, Fault: &synth.Fault{Kind: synth.FDistTooFar, Block: 0, At: 0, Arg: 5}, Tail: 40}
+	a, _, _, _ := smallStream(1).Build()
+	f.Add(a, far.Build().Bytes, byte(1), byte(5))
+	f.Fuzz(func(t *testing.T, d1, d2 []byte, ctl, k byte) {
+		if len(d1) > 1<<15 || len(d2) > 1<<15 {
+			return
+		}
+		if d1 == nil {
+			d1 = []byte{}
+		}
+		if d2 == nil {
+			d2 = []byte{}
+		}
+		c := C13Case{Pkg: []string{"flate", "flate", "gzip", "zlib"}[ctl%4], Reads: []int{4096}}
+		u := RUse{In: RInput{Stream: StreamSpec{Kind: "raw", Raw: d1}}, Plan: []string{"partial", "full", "none", "partial"}[(ctl>>2)%4], K: 1 + int(k)*int(k)}
+		if ctl&16 != 0 {
+			u.OwnBuf = 16
+		}
+		c.Before = []RUse{u}
+		c.Next = RInput{Stream: StreamSpec{Kind: "raw", Raw: d2}}
+		if ctl&32 != 0 {
+			c.Chunks = []int{1}
+		}
+		if ctl&64 != 0 {
+			c.SameSrc, c.Suffix = true, int(k)
+			c.Before[0].OwnBuf = 0
+		}
+		done := begin("C13", c)
+		defer done()
+		if _, _, err := checkC13(c); err != nil {
+			fuzzFail(t, "C13", c, err)
+		}
+	})
+}
